@@ -801,15 +801,16 @@ func main() {
 		"exhaustive 3-block/one-slot enumeration, 8192-block window crossing. Non-trivial = at least one block was reverted")
 	opt := genOptions()
 	pr := runProbes(opt)
-	res.Note("repairs detected in the tree under test: zeroWriteFix(05cf200)=%v removeImplicitClasses(64c1acb)=%v legacyPurgeOnUpdate=%v legacyDedupDeclared=%v",
+	res.Note("repairs detected in the tree under test: zeroWriteFix(05cf200)=%v removeImplicitClasses(64c1acb)=%v legacyPurgeOnUpdate=%v legacyDedupDeclared(7460746)=%v",
 		pr.zeroWriteFix, pr.removeImplicitClasses, pr.legacyPurgeOnUpdate, pr.legacyDedupDeclared)
 	for _, pf := range pr.failed {
 		res.Fatalf("probe could not run: %s", pf)
 	}
-	if !pr.zeroWriteFix || pr.legacyPurgeOnUpdate {
+	if !pr.zeroWriteFix || pr.legacyPurgeOnUpdate || !pr.legacyDedupDeclared {
 		// Cfg.asFound does not hold for the legacy backend of this tree: the theorems say nothing about it
-		res.Fatalf("the legacy backend of the tree under test is not the code the theorems are about (Cfg.asFound): zeroWriteFix=%v legacyPurgeOnUpdate=%v",
-			pr.zeroWriteFix, pr.legacyPurgeOnUpdate)
+		// (the regressions themselves are reported as violations by the directed scenarios)
+		res.Fatalf("the legacy backend of the tree under test is not the code the theorems are about (Cfg.asFound): zeroWriteFix=%v legacyPurgeOnUpdate=%v legacyDedupDeclared(7460746)=%v",
+			pr.zeroWriteFix, pr.legacyPurgeOnUpdate, pr.legacyDedupDeclared)
 	}
 	if repo := os.Getenv("VERIF_REPO"); repo != "" {
 		if out, err := exec.Command("git", "-C", repo, "rev-parse", "HEAD").Output(); err == nil {
